@@ -328,17 +328,11 @@ func (c *Ctx) c03ErrorEdges() {
 			}
 			n++
 			key := fkey(fn) + ":" + readerMethod(call) + ":error-edge"
-			fails := nilEdges(ev, false)
+			fails := failEdges(ev)
 			if len(fails) == 0 {
 				// the error must be returned directly
-				direct := false
-				for _, r := range core.Referrers(ev) {
-					if _, isRet := r.(*ssa.Return); isRet {
-						direct = true
-					}
-					if _, isStore := r.(*ssa.Store); isStore { // spilled result
-						direct = true
-					}
+				direct := flowsToReturn(ev)
+				if false {
 				}
 				R.Check(direct, "C03.R5", key, c.at(call), "the error of a frame-reader / accessor call is tested or returned", "returned directly to the caller", "the error result is neither tested nor returned")
 				continue
